@@ -868,7 +868,7 @@ class ContentElement(TTMLElement):
 
             if self.implicit_end is not None and child_element.desired_end is not None:
 
-              self.implicit_end = max(self.implicit_end, child_element.desired_end)
+              self.implicit_end = max(self.implicit_end, child_element.desired_end + self.desired_begin)
 
             else:
 
